@@ -585,6 +585,10 @@ class ProceduralResolver:
 	# Operator
 
 	def on_factor(self, node: defs.Factor, operator: IReflection, value: IReflection) -> IReflection:
+		# 単項の算術演算子はboolをintに昇格する(-True == -1, ~True == -2)
+		if value.impl(refs.Object).actualize('alt').type_is(bool):
+			return self.reflections.from_standard(int).stack(node)
+
 		return value.stack(node)
 
 	def on_not_compare(self, node: defs.NotCompare, operator: IReflection, value: IReflection) -> IReflection:
